@@ -1,13 +1,53 @@
 import SJ.Drv.Mach
+import SJ.Spec.Canon
 namespace SJ.Drv.C01
 open SJ SJ.Drv SJ.Drv.Mach SJ.Model.Machine
 
+def specCfg (c : Cfg) : Spec.Canon.Cfg := { po := c.po, fr := c.fr, ap := c.ap, limitOff := c.limitOff }
+
+/-- verdict of the specification (recogniser + side conditions + denotation) on one source's outcome -/
+def judgeValue (cfg : Cfg) (srcName : String) (byteSource : Bool) (bs : Bytes) (impl : String) : Option String :=
+  if impl == "-" then none else
+  let exp := Spec.Canon.expected (specCfg cfg) byteSource bs
+  match exp with
+  | none =>
+    if impl.startsWith "V" then some s!"C01 {srcName}: accepted, but the input is not a JSON text meeting the side conditions"
+    else none
+  | some v =>
+    if impl.startsWith "V" then
+      if impl == "V" ++ encJV v then none
+      else some s!"C02 {srcName}: value differs from the denotation V{encJV v}"
+    else if impl == "PANIC" then some s!"C14 {srcName}: panic"
+    else some s!"C01 {srcName}: rejected a valid JSON text ({impl})"
+
+def judgeIgnored (srcName : String) (bs : Bytes) (impl : String) : Option String :=
+  if impl == "-" then none else
+  match Spec.Rec.recognise bs with
+  | none => if impl == "U" then some s!"C19 {srcName}: skipped content accepted although not in the grammar" else none
+  | some _ =>
+    if impl == "U" then none
+    else if impl == "PANIC" then some s!"C14 {srcName}: panic"
+    else some s!"C19 {srcName}: skipped content rejected although in the grammar ({impl})"
+
+def firstSome : List (Option String) → Option String
+  | [] => none
+  | some x :: _ => some x
+  | none :: r => firstSome r
+
 /-- `pv <cfg> <hex>` / `pi <cfg> <hex>`: parse into Value / IgnoredAny from all three sources -/
-def parseAll (tgt : Tgt) : Handler := fun args _impl =>
+def parseAll (tgt : Tgt) : Handler := fun args impl =>
   match args with
   | [c, h] =>
     match bytesOfHex h with
-    | some bs => { model := runAll (cfgOfTag c) tgt bs }
+    | some bs =>
+      let cfg := cfgOfTag c
+      let spec := match impl.splitOn "|" with
+        | [s, sl, rd] =>
+          if tgt = .value then
+            firstSome [judgeValue cfg "str" false bs s, judgeValue cfg "slice" true bs sl, judgeValue cfg "reader" true bs rd]
+          else firstSome [judgeIgnored "str" bs s, judgeIgnored "slice" bs sl, judgeIgnored "reader" bs rd]
+        | _ => some "malformed observation"
+      { model := runAll cfg tgt bs, spec := spec }
     | none => bad "hex"
   | _ => bad "arity"
 
